@@ -21,7 +21,7 @@ namespace EG
 namespace Tab
 
 """
-ARGS = [0, 1, 2, 3, 4, 5, 6, 7, 8, 11, 12]      # 9 raises in __init__, 10 is for true singletons
+ARGS = [0, 1, 2, 3, 4, 5, 6, 7, 8, 11, 12, 13, 14]      # 9 raises in __init__, 10 is for true singletons
 
 
 def rows():
